@@ -278,8 +278,22 @@ class C15(Prop):
             for t in ts:
                 q = p.point(t) if e is None else p.point(t, error=e)
                 pts.append(P(q))
-            return {"lens": lens, "length": total, "ts": ts, "pts": pts,
-                    "segs": [geo.wire(s) for s in segl], "kinds": [geo.kind(s) for s in segl]}
+            out = {"lens": lens, "length": total, "ts": ts, "pts": pts,
+                   "segs": [geo.wire(s) for s in segl], "kinds": [geo.kind(s) for s in segl]}
+            # a history on the SAME object: it has been measured (above); now transform it in place, reify, measure again -
+            # the result must be that of a freshly built equal object (no stale cached lengths)
+            from copy import copy as _copy
+            M = Matrix(*case.get("hist", [2.0, 0.0, 0.0, 3.0, 5.0, -7.0]))
+            p *= M
+            p.reify()
+            again = float(p.length() if e is None else p.length(error=e))
+            fresh_obj = Path(*[_copy(sg) for sg in p]) if isinstance(p, Path) else type(p)(p)
+            fresh = float(fresh_obj.length() if e is None else fresh_obj.length(error=e))
+            tq = 0.37
+            pa = p.point(tq) if e is None else p.point(tq, error=e)
+            pf = fresh_obj.point(tq) if e is None else fresh_obj.point(tq, error=e)
+            out["hist"] = {"again": again, "fresh": fresh, "pt_again": P(pa), "pt_fresh": P(pf)}
+            return out
         except Exception as ex:
             import traceback
             return {"exc": exc_name(ex), "tb": traceback.format_exc()[-400:]}
@@ -413,6 +427,15 @@ class C15(Prop):
         if case["k"] == "seg":
             return []
         fs = []
+        h = obs.get("hist")
+        if h is not None:
+            if abs(h["again"] - h["fresh"]) > 1e-9 * max(1.0, abs(h["fresh"])):
+                fs.append(Failure(what="after an in-place transform and reify, length() of the object that had been measured before is "
+                                       "%r; a freshly built equal object gives %r" % (h["again"], h["fresh"]), case=case))
+            elif h["pt_again"] is not None and h["pt_fresh"] is not None and \
+                    max(abs(a - b) for a, b in zip(h["pt_again"], h["pt_fresh"])) > 1e-9 * max(1.0, abs(h["fresh"])):
+                fs.append(Failure(what="after an in-place transform and reify, point(0.37) is %r; a freshly built equal object gives %r"
+                                       % (h["pt_again"], h["pt_fresh"]), case=case))
         lens, total = obs["lens"], obs["length"]
         if any(k == "Move" and l != 0 for k, l in zip(obs["kinds"], lens)):
             fs.append(Failure(what="a move contributes to the length", case=case, observed=lens))
